@@ -127,7 +127,15 @@ func cmdVerify(args []string) int {
 			}
 			fmt.Printf("%s %-60s %-8s %-8s %5dms  %s\n", mark, r.Obl.Name, r.Res.Status, r.Res.Solver, r.Res.Ms, r.Obl.Desc)
 			if r.Res.Status != "proved" {
-				fmt.Printf("      at %s; outputs %v; file %s\n", r.Obl.Pos, r.Res.Outputs, r.Res.File)
+				outs := ""
+				for _, k := range sortedKeys(r.Res.Outputs) {
+					v := r.Res.Outputs[k]
+					if len(v) > 90 {
+						v = v[:90]
+					}
+					outs += k + "=" + v + " "
+				}
+				fmt.Printf("      at %s; %s; file %s\n", r.Obl.Pos, outs, r.Res.File)
 				if len(r.Res.Model) > 0 {
 					var ks []string
 					for k := range r.Res.Model {
@@ -146,6 +154,11 @@ func cmdVerify(args []string) int {
 }
 
 func main() {
+	os.Setenv("PATH", "/opt/veriftools/go1.26.8/bin:"+os.Getenv("PATH"))
+	os.Setenv("GOTOOLCHAIN", "local")
+	os.Setenv("GOFLAGS", "-mod=mod")
+	os.Setenv("GOPROXY", "off")
+	os.Setenv("GOSUMDB", "off")
 	if len(os.Args) < 2 {
 		fmt.Println("usage: govc verify|check ...")
 		os.Exit(2)
